@@ -548,13 +548,17 @@ Section BundleRun.
       intros t Et. rewrite Et in H. apply negb_true_iff in H. exact H.
     Qed.
 
-    Lemma rc2b_idem : rc_idem RC2 P2b.
+    Lemma rc2b_idem : rc_idem RC2 ro P2b.
     Proof.
+      split.
+      2:{ intros vv0 HP. unfold P2b in HP. rewrite nestable_no_tag in HP.
+          assert (E : ustr_eqb (obs_tag vv0) MEMB = false) by (destruct vv0; vm_compute; reflexivity).
+          rewrite E in HP. discriminate. }
       intros cid0 a i d o HP Hp H. unfold rc2 in *. unfold P2b in HP.
       destruct (ustr_eqb cid0 MEMB) eqn:E.
       2:{ cbn [orb] in HP.
-          exact (claim_rc vr ev w pattern_ok selectors_ok ids f
-                   (run_construct_idem vr ev w pattern_ok selectors_ok Hpad ids (closed_ok_weaken vr w ids Hclosed) f) cid0 a i d o HP Hp H). }
+          exact (proj1 (claim_rc vr ev w pattern_ok selectors_ok ids f
+                   (run_construct_idem vr ev w pattern_ok selectors_ok Hpad ids (closed_ok_weaken vr w ids Hclosed) f)) cid0 a i d o HP Hp H). }
       clear HP E. unfold member_clean in H.
       destruct d as [| kv d']; [discriminate |]. set (d := kv :: d') in *.
       destruct (jvalue_eqb (match alookup (u "type") d with Some t => t | None => JNull end) (JStr (u "bundle"))) eqn:Hty; try discriminate.
